@@ -4,7 +4,8 @@
 From Coq Require Import Reals List Arith Lia Lra.
 From TLV Require Import Base.Shape Base.PyList Base.Tensor Base.Ops Base.RSum Model.Descent
   Model.DescentReport Proofs.DescentProofs Proofs.DescentProofsHals Proofs.DescentProofsLink Proofs.DescentProofsOrth Proofs.DescentProofsNorm Proofs.DescentProofsNN Proofs.DescentProofsReg Proofs.DescentProofsTucker Proofs.DescentProofsCmtf Proofs.DescentProofsTkReg Proofs.DescentProofsTR Proofs.DescentProofsUnfold
-  Proofs.DescentProofsSpec Proofs.DescentProofsSweeps Proofs.DescentProofsSweeps2 Proofs.DescentProofsReport Proofs.DescentProofsP2Tie Proofs.DescentProofsStatic Proofs.DescentProofsNNNorm.
+  Proofs.DescentProofsSpec Proofs.DescentProofsSweeps Proofs.DescentProofsSweeps2 Proofs.DescentProofsReport Proofs.DescentProofsP2Tie Proofs.DescentProofsStatic Proofs.DescentProofsNNNorm
+  Model.DescentModes Proofs.DescentProofsModes.
 Import ListNotations.
 Open Scope R_scope.
 
@@ -564,6 +565,24 @@ Theorem C07_nn_norm_history_monotone : forall (X : tensor R) (rank : nat) (eps :
 Proof. exact nnn_history_monotone. Qed.
 Print Assumptions C07_nn_norm_history_monotone.
 
+
+(* option parsing of fixed_modes (Model/DescentModes.v, executed by the correspondence on the modes the implementation's first sweep updates):
+   every updated mode is a mode of the tensor (the side condition k < order of the block theorems), the list is increasing, and for parafac its
+   LAST entry is the last mode - the MTTKRP left over from a sweep is the one error_calc contracts with factors[-1] (C07_cp_reported_is_sqerr, k = n-1) *)
+Theorem C07_cp_modes_lt : forall (n : nat) (fixed : list nat) (m : nat), In m (cp_modes_list n fixed) -> (m < n)%nat.
+Proof. exact cp_modes_lt. Qed.
+Print Assumptions C07_cp_modes_lt.
+Theorem C07_cp_modes_last : forall (n : nat) (fixed : list nat), (0 < n)%nat -> last (cp_modes_list n fixed) 0%nat = (n - 1)%nat.
+Proof. exact cp_modes_last. Qed.
+Print Assumptions C07_cp_modes_last.
+Theorem C07_cp_modes_increasing : forall (n : nat) (fixed : list nat) (i j : nat), (i < j)%nat -> (j < length (cp_modes_list n fixed))%nat ->
+  (nth i (cp_modes_list n fixed) 0 < nth j (cp_modes_list n fixed) 0)%nat.
+Proof. exact cp_modes_increasing. Qed.
+Print Assumptions C07_cp_modes_increasing.
+Theorem C07_nn_modes_lt : forall (n : nat) (fixed : list nat) (m : nat), In m (nn_modes_list n fixed) -> (m < n)%nat.
+Proof. exact nn_modes_lt. Qed.
+Print Assumptions C07_nn_modes_lt.
+
 (* ---------- non-vacuity: the hypotheses of the theorems above are satisfiable (and the descent can be strict) ---------- *)
 Example C07_cp_nonvacuous :
   let X := mk [2;2]%nat [1;2;3;4] in let w := [1] in let facs := [[[1];[1]]; [[1];[2]]] in
@@ -792,3 +811,7 @@ Proof.
     { intros k s0 r Hr. assert (r = 0%nat) by lia; subst r. cbn [nth]. split; [lra | left; reflexivity]. }
     split; [simpl; lia|]. split; [apply H|]. split; [simpl; lia|]. split; [apply H | exact I].
 Qed.
+
+(* fixed_modes = [2; 0] on a third-order tensor: the last mode cannot be fixed, modes 1 and 2 are updated; [1; 2; 0] fixes everything *)
+Example C07_modes_example : cp_modes_list 3 [2; 0]%nat = [1; 2]%nat /\ cp_all_fixed 3 [1; 2; 0]%nat = true /\ nn_modes_list 3 [2; 0]%nat = [1]%nat.
+Proof. repeat split; reflexivity. Qed.
